@@ -126,6 +126,9 @@ impl BytesMut {
   pub fn put_u64(&mut self, n: u64) ensures final(self)@ == old(self)@ + to_be64(n as nat) { unimplemented!() }
   #[verifier::external_body]
   pub fn put_slice(&mut self, src: &[u8]) ensures final(self)@ == old(self)@ + src@ { unimplemented!() }
+  // BufMut::put_bytes(val, cnt): cnt copies of val
+  #[verifier::external_body]
+  pub fn put_bytes(&mut self, val: u8, cnt: usize) ensures final(self)@ == old(self)@ + Seq::new(cnt as nat, |i: int| val) { unimplemented!() }
   #[verifier::external_body]
   pub fn extend_from_slice(&mut self, src: &[u8]) ensures final(self)@ == old(self)@ + src@ { unimplemented!() }
   // BufMut::put(impl Buf): appends all remaining bytes of the source
